@@ -301,7 +301,7 @@ func emitCalDec(o *Out, doc string, intended string) {
 	h := &caldav.Handler{Backend: b}
 	res := guard(func() string {
 		req := httptest.NewRequest("REPORT", "http://example.com/u/cal/a/", strings.NewReader(doc))
-		req.Header.Set("Content-Type", "application/xml; charset=utf-8")
+		req.Header.Set("Content-Type", xmlCTSpelling(len(doc)))
 		rec := httptest.NewRecorder()
 		h.ServeHTTP(rec, req)
 		code := rec.Result().StatusCode
@@ -428,7 +428,7 @@ func randInstant(r *RNG, zeroPct int) time.Time {
 	return time.Unix(sec, nsec).In(calZones[r.Intn(len(calZones))])
 }
 
-var cwCalTexts = []string{"", "a", " lead", "trail ", "a b", "<&>", "é", "x@y.z", "\"q\"", "a\nb", "]]>", "  ", "&amp;"}
+var cwCalTexts = []string{"", "a", " lead", "trail ", "a b", "<&>", "é", "x@y.z", "\"q\"", "a\nb", "]]>", "  ", "&amp;", "\r", "Main St 1\r\nSpringfield", "trailing\r", "\ttab", "nel\u0085ls\u2028"}
 var cwCompNames = []string{"VCALENDAR", "VEVENT", "VTODO", "VALARM", "VTIMEZONE", "X-é", ""}
 var cwPropNames = []string{"SUMMARY", "UID", "DTSTART", "ATTENDEE", "X-A&B", ""}
 
